@@ -2070,6 +2070,12 @@ func (r Stack) Reveal() Stack {
 reveal is a private method called by [Stack.Reveal].
 */
 func (r *stack) reveal() (err error) {
+	// the recursion of an enclosing stack's Reveal arrives
+	// here directly: honor the receiver's own read-only bit.
+	if r.positive(ronly) {
+		return
+	}
+
 	r.lock()
 	defer r.unlock()
 
